@@ -381,3 +381,30 @@ func HarnessC01ExportTimeout() {
 	vndAssert(e.count("s3") == 0, "nothing-exported-after-shutdown-returned")
 	c01Common(&e.c01Exporter, c01Cfg{queue: 2, batch: 1}, []string{"s0", "s1", "s2", "s3"})
 }
+
+// ---- C01.providerflush: the same overlap through the TracerProvider:
+// provider.ForceFlush overlapped by provider.Shutdown
+func HarnessC01ProviderFlushShutdown() {
+	stopped := false
+	e := &c01Exporter{stopped: &stopped}
+	bsp := NewBatchSpanProcessor(e, WithMaxQueueSize(2), WithMaxExportBatchSize(1), WithBatchTimeout(time.Second), WithExportTimeout(0)).(*batchSpanProcessor)
+	p := &TracerProvider{}
+	sps := spanProcessorStates{newSpanProcessorState(bsp)}
+	p.spanProcessors.Store(&sps)
+	bsp.OnEnd(c01Span("s0", true))
+	var wg sync.WaitGroup
+	wg.Add(1)
+	go func() {
+		defer wg.Done()
+		if p.Shutdown(context.Background()) == nil {
+			vndGhostStore(&stopped, true)
+		}
+	}()
+	if p.ForceFlush(context.Background()) == nil {
+		vndReach("flush-nil")
+		vndAssert(e.count("s0") == 1, "spans-ended-before-flush-are-exported-when-provider-flush-overlapped-by-shutdown-returns-nil")
+	}
+	wg.Wait()
+	vndAssert(e.count("s0") == 1, "span-exported-once-shutdown-returned")
+	c01Common(e, c01Cfg{queue: 2, batch: 1}, []string{"s0"})
+}
